@@ -231,6 +231,9 @@ func (m *mJob) podObj(p mPod) *corev1.Pod {
 		pod.Status.ContainerStatuses = []corev1.ContainerStatus{cs}
 	case p.ContStart != nil:
 		cs.State.Running = &corev1.ContainerStateRunning{StartedAt: *mtp(p.ContStart)}
+		if p.OOM {
+			cs.LastTerminationState.Terminated = &corev1.ContainerStateTerminated{Reason: "OOMKilled", ExitCode: 137}
+		}
 		pod.Status.ContainerStatuses = []corev1.ContainerStatus{cs}
 	case p.OOM:
 		cs.LastTerminationState.Terminated = &corev1.ContainerStateTerminated{Reason: "OOMKilled", ExitCode: 137}
